@@ -24,7 +24,9 @@ SPACES = [b" ", b"\t", b"\n", b"\r", b"\x0b", b"\x0c", b"\xc2\x85", b"\xc2\xa0",
           b"\xe2\x81\x9f", b"\xe3\x80\x80", b"\xe2\x80\x8b", b"\xc2", b"\xa0", b"\xe2\x80"]
 LOCALS = [b"abc", b"ABC", b"aBc", b"1", b"01", b"001", b"ubuntu.1", b"ubuntu-1", b"a_b", b"1.2", b"x.10", b"x.9",
           b"a..b", b"a.-b", b"18446744073709551616", b"18446744073709551615", b"18446744073709551614",
-          b"1a", b"a1", b"0", b"00", b"z", b"Z", b"007", b"10", b"9", b"abc.01", b"abc.1", b"abc.007", b"abc.10", b"Ubuntu1", b"ubuntu1", b"a.b.c", b"a.b", b"a.0", b"a.1", b"1.a", b"deadbeef", b"2.0.0"]
+          b"1a", b"a1", b"0", b"00", b"z", b"Z", b"007", b"10", b"9", b"abc.01", b"abc.1", b"abc.007", b"abc.10", b"Ubuntu1", b"ubuntu1", b"a.b.c", b"a.b", b"a.0", b"a.1", b"1.a", b"deadbeef", b"2.0.0",
+          # segments after an alternative separator decide (seed C02-j)
+          b"ubuntu-2", b"ubuntu_2", b"ubuntu_1", b"abc-1", b"abc-2", b"abc_2", b"abc-10", b"x-10", b"x_9", b"a.b-c_2", b"a-b.c.1", b"a_b_c"]
 
 
 def pick(rng, xs):
